@@ -21,6 +21,39 @@ def streams(gen):
             ("unknown-sub+error", [cp["unknown-sub"], cp["error"]])]
 
 
+def damaged_streams(gen):
+    """A frame with a wrong check value in the middle: whatever the segmentation, the frames before it are
+    delivered, the connection is replaced, and nothing behind it on the old stream is delivered."""
+    cp = dict(c06.corpus(gen))
+    bad = bytearray(cp["zone-status"])
+    bad[-1] ^= 0x40
+    return [("damaged:ac-status+BAD(zone-status)+version", [cp["ac-status"], bytes(bad), cp["version"]], 1),
+            ("damaged:BAD(zone-status)+timer-status+version", [bytes(bad), cp["timer-status"], cp["version"]], 0)]
+
+
+def run_damaged(job):
+    gen, name, frames, good, maxcuts, shard, nshards = job
+    raw = b"".join(frames)
+    base, nconn, rep = deliver(gen, raw, (), ())
+    if len(base) != good or nconn != 2 or rep:
+        return 1, (f"at{gen} {name}: unsegmented stream: {len(base)} messages delivered over {nconn} connection(s), expected the "
+                   f"{good} before the damaged frame and one re-connection; loop reports {rep[:1]}")
+    n = 1
+    k = 0
+    for ncut in range(1, maxcuts + 1):
+        for cuts in itertools.combinations(range(1, len(raw)), ncut):
+            k += 1
+            if k % nshards != shard:
+                continue
+            for modes in itertools.product([True, False], repeat=ncut):
+                got, nconn, rep = deliver(gen, raw, cuts, modes)
+                n += 1
+                if got != base or nconn != 2 or rep:
+                    return n, (f"at{gen} {name}: cuts {cuts} (settle after segment: {modes}): delivered {len(got)} messages over "
+                               f"{nconn} connection(s); the unsegmented run delivered {len(base)} over 2; loop reports {rep[:1]}")
+    return n, None
+
+
 def _command(gen):
     from . import sockcommon
     return sockcommon.catalogue(gen)[0][0][1]
@@ -89,7 +122,7 @@ def run(tier, seed, part=None):
     chk.trusted_base = ["pvmc.ref.framing", "pvmc.vloop / pvmc.simnet (data_received per segment, as a selector callback)",
                         "pvmc.libview (to compare delivered messages between runs)"]
     chk.assumptions = ["streams of 1-3 frames per generation incl. an empty payload and a zero-record status",
-                       "between two segments: no loop turn, run to quiescence, or run to quiescence and let the client transmit a command"]
+                       "two streams per generation with a damaged frame (first or second position)", "between two segments: no loop turn, run to quiescence, or run to quiescence and let the client transmit a command"]
     nsh = 16
     jobs = []
     for gen in (4, 5):
@@ -106,6 +139,15 @@ def run(tier, seed, part=None):
         total += n
         if msg:
             chk.violation(f"at{job[0]}:{job[1]}", msg, {"kind": "input", "module": "pvmc.props.c13", "message": msg})
+    djobs = [(gen, name, frames, good, 2 if tier == "quick" else 3, sh, nsh)
+             for gen in (4, 5) for (name, frames, good) in damaged_streams(gen) for sh in range(nsh)]
+    for job, (n, msg) in zip(djobs, explorer.pool().map(run_damaged, djobs, chunksize=1)):
+        total += n
+        if msg:
+            chk.violation(f"at{job[0]}:{job[1]}", msg, {"kind": "input", "module": "pvmc.props.c13", "message": msg})
+    for gen in (4, 5):
+        for name, frames, good in damaged_streams(gen):
+            chk.parts.append({"scenario": f"at{gen}/{name}", "bytes": sum(len(f) for f in frames), "frames": len(frames), "delivered": good})
     chk.counters["states"] = total
     chk.counters["transitions"] = total
     chk.counters["executions"] = total
